@@ -7,16 +7,16 @@ reloads, generations, children, any schedule; children are arbitrary processes).
 -/
 namespace GoSup.Props.C09L
 open GoSup.Core GoSup.CompLts
-open GoSup.CompSeq (Ret CbRes Out)
+open GoSup.CompSeq (CbRes Out)
 
-theorem inv_reach {b : Bool} {s : St} (h : Reach lts (init b) s) : Inv s :=
+theorem inv_reach {b : List Nat} {s : St} (h : Reach lts (init b) s) : Inv s :=
   inv_of_reach Inv (inv_init b) (fun _ _ _ hi hs => inv_step hi hs) h
 
 /-- **No child survives `Run()`** (C09, C18): in every state in which `Run()` has returned — and in every later
 state, whatever a `Reload()` still in flight does afterwards — the context of every generation of children ever booted
 is done: the generation was cancelled by `stopAllRunnables`, or it derives from the run context, which the deferred
 `runCancel()` has ended.  A generation booted after the return (by a reload that was overtaken) is born cancelled. -/
-theorem c09_none_survive {b : Bool} {s : St} (h : Reach lts (init b) s) {r : Ret} (hr : s.run = .returned r) :
+theorem c09_none_survive {b : List Nat} {s : St} (h : Reach lts (init b) s) {r : RRet} (hr : s.run = .returned r) :
     ∀ g ∈ s.gens, Gen.done s g = true := by
   intro g hg
   have hi := inv_reach h
@@ -25,7 +25,7 @@ theorem c09_none_survive {b : Bool} {s : St} (h : Reach lts (init b) s) {r : Ret
 /-- **At most one generation of children is alive** (C09, C11): whenever a generation's own context has not been
 cancelled it is the one `r.childCancel` belongs to; so two generations are never alive together — a restart boots the
 new children only after the generation before has been ended (the clause the repair C09-F2 established). -/
-theorem c09_one_live_generation {b : Bool} {s : St} (h : Reach lts (init b) s) {i j : Nat} {gi gj : Gen}
+theorem c09_one_live_generation {b : List Nat} {s : St} (h : Reach lts (init b) s) {i j : Nat} {gi gj : Gen}
     (hi : s.gens[i]? = some gi) (hj : s.gens[j]? = some gj) (ci : gi.cancelled = false) (cj : gj.cancelled = false) : i = j := by
   have hinv := (inv_reach h).g
   have h1 := hinv.oneLive i gi hi ci
@@ -34,11 +34,11 @@ theorem c09_one_live_generation {b : Bool} {s : St} (h : Reach lts (init b) s) {
   exact Option.some.inj h2
 
 /-- **`boot` is never given a nil context** (C19 flavour): `reloadWithRestart` reads `r.ctx` only after `Run()` has set it. -/
-theorem c09_no_nil_context {b : Bool} {s : St} (h : Reach lts (init b) s) : s.nilBoot = false := (inv_reach h).nilBoot
+theorem c09_no_nil_context {b : List Nat} {s : St} (h : Reach lts (init b) s) : s.nilBoot = false := (inv_reach h).nilBoot
 
 /-- **A restart boots into a clean slate** (C11): in every state in which `reloadWithRestart` is between its
 `stopAllRunnables` and its `boot`, no generation is alive. -/
-theorem c11_restart_stops_first {b : Bool} {s : St} (h : Reach lts (init b) s)
+theorem c11_restart_stops_first {b : List Nat} {s : St} (h : Reach lts (init b) s)
     (hrl : (∃ cfg, s.rl = .stoppedOld cfg) ∨ s.rl = .configSet) : ∀ g ∈ s.gens, g.cancelled = true := by
   intro g hg
   have hinv := inv_reach h
@@ -57,8 +57,9 @@ def neverLaunched (s : St) (c : Nat) : Bool := s.gens.all fun g => g.children.al
 /-- `Run` is inside its final `stopAllRunnables`, holding `runnablesMu`, waiting for the `Stop()` of child `c` of the
 *new* configuration, which was never started; the reload is waiting for the same mutex in order to start it -/
 structure Stuck (s : St) (c : Nat) (rest : List Nat) : Prop where
-  blocking : s.blocking = true
+  blocking : s.blockers.contains c = true
   run   : s.run = .stopping (c :: rest)
+  nodup : (c :: rest).Nodup
   mu    : s.mu = some .run
   rl    : s.rl = .configSet
   never : neverLaunched s c = true
@@ -94,67 +95,97 @@ theorem ranAndReturned_never {s : St} {c : Nat} (h : neverLaunched s c = true) :
     exact h x hx p hp
   simp [ranAndReturned, this]
 
-/-- nothing any thread or child can do leads out of the stuck configuration -/
+/-- nothing any thread or child can do leads out of the stuck configuration: `Run` keeps waiting for the `Stop()` of `c`
+(the other pending `Stop()`s may return) -/
 theorem stuck_step {s s' : St} {c : Nat} {rest : List Nat} {a : Act} (h : Stuck s c rest) (hs : step s a = some s') :
-    Stuck s' c rest := by
-  obtain ⟨hb, hrun, hmu, hrl, hnever⟩ := h
+    ∃ rest', Stuck s' c rest' := by
+  obtain ⟨hb, hrun, hnd, hmu, hrl, hnever⟩ := h
   cases a <;> simp only [step, hrun, hmu, hrl, tr] at hs
   case stopCall =>
-    cases hs; exact ⟨hb, by simp, by simp, by simp, hnever⟩
+    cases hs; exact ⟨rest, hb, by simp, hnd, by simp, by simp, hnever⟩
   case cancelCtx =>
-    cases hs; exact ⟨hb, by simp, by simp, by simp, hnever⟩
+    cases hs; exact ⟨rest, hb, by simp, hnd, by simp, by simp, hnever⟩
+  case reloadCall =>
+    cases hs; exact ⟨rest, hb, by simp, hnd, by simp, by simp, hnever⟩
+  case reloadAck st =>
+    split at hs
+    · cases hs; exact ⟨rest, hb, by simp, hnd, by simp, by simp, hnever⟩
+    · cases hs
+  case observe st =>
+    split at hs
+    · cases hs; exact ⟨rest, hb, hrun, hnd, hmu, hrl, hnever⟩
+    · cases hs
+  case childStopInv c' =>
+    split at hs
+    · cases hs; exact ⟨rest, hb, hrun, hnd, hmu, hrl, hnever⟩
+    · cases hs
   case childRun g c' =>
     split at hs
-    · cases hs; exact ⟨hb, hrun, hmu, hrl, neverLaunched_setChild _ _ _ _ _ hnever⟩
+    · cases hs; exact ⟨rest, hb, hrun, hnd, hmu, hrl, neverLaunched_setChild _ _ _ _ _ hnever⟩
     · cases hs
   case childExit g c' o =>
     split at hs
     · cases hs
       split
-      · exact ⟨hb, hrun, hmu, hrl, neverLaunched_setChild _ _ _ _ _ hnever⟩
-      · exact ⟨hb, hrun, hmu, hrl, neverLaunched_setChild _ _ _ _ _ hnever⟩
+      · exact ⟨rest, hb, hrun, hnd, hmu, hrl, neverLaunched_setChild _ _ _ _ _ hnever⟩
+      · exact ⟨rest, hb, hrun, hnd, hmu, hrl, neverLaunched_setChild _ _ _ _ _ hnever⟩
     · cases hs
   case childExitDropped g c' =>
     split at hs
-    · cases hs; exact ⟨hb, hrun, hmu, hrl, neverLaunched_setChild _ _ _ _ _ hnever⟩
+    · cases hs; exact ⟨rest, hb, hrun, hnd, hmu, hrl, neverLaunched_setChild _ _ _ _ _ hnever⟩
     · cases hs
   case childStopRet c' =>
-    simp [hb] at hs
-    obtain ⟨⟨rfl, hr⟩, _⟩ := hs
-    rw [ranAndReturned_never hnever] at hr; cases hr
+    split at hs
+    · rename_i hc
+      simp only [Bool.and_eq_true, Bool.or_eq_true, Bool.not_eq_true'] at hc
+      obtain ⟨hmem, hok⟩ := hc
+      cases hs
+      by_cases hcc : c' = c
+      · subst hcc
+        rcases hok with hok | hok
+        · rw [hb] at hok; cases hok
+        · rw [ranAndReturned_never hnever] at hok; cases hok
+      · -- another pending Stop() returned
+        have hne : (c == c') = false := by simpa using fun h' => hcc h'.symm
+        refine ⟨rest.erase c', hb, ?_, ?_, by simp, by simp, hnever⟩
+        · simp [List.erase_cons, hne]
+        · have := List.nodup_cons.mp hnd
+          exact List.nodup_cons.mpr ⟨fun hm => this.1 (List.mem_of_mem_erase hm), this.2.erase c'⟩
+    · cases hs
   all_goals (simp at hs)
 
 /-- from a stuck configuration `Run()` never returns and the `Reload()` never finishes, whatever happens -/
 theorem c09_f1_stuck_forever {s t : St} {c : Nat} {rest : List Nat} (h : Stuck s c rest) (hr : Reach lts s t) :
     (∀ r, t.run ≠ .returned r) ∧ t.rl = .configSet := by
-  have : Stuck t c rest := by
+  have : ∃ rest', Stuck t c rest' := by
     induction hr with
-    | init => exact h
-    | step _ hs ih => exact stuck_step ih hs
+    | init => exact ⟨rest, h⟩
+    | step _ hs ih => obtain ⟨r', hr'⟩ := ih; exact stuck_step hr' hs
+  obtain ⟨r', this⟩ := this
   exact ⟨fun r hr => (by rw [this.run] at hr; cases hr), this.rl⟩
 
 /-- the schedule of finding C09-F1: a restart reload `[0] → [1]` is overtaken by `Stop()` between its `setConfig`
 and its `boot` -/
 def f1Schedule : List Act :=
   [.runEnter, .runBoot (.ok [(0, 0)]), .runToRunning, .childRun 0 0,
-   .rlEnter, .rlCallback (.ok [(1, 0)]), .rlDecide, .rlStopBegin, .childExit 0 0 .nil, .childStopRet 0, .rlStopEnd, .rlSetConfig,
+   .reloadCall, .rlEnter, .rlCallback (.ok [(1, 0)]), .rlDecide, .rlStopBegin, .childExit 0 0 .nil, .childStopRet 0, .rlStopEnd, .rlSetConfig,
    .stopCall, .runSelStop, .runToStopping, .runStopBegin]
 
 /-- **C09-F1 is a behaviour of the model**: the stuck configuration is reachable with bundled-style children -/
-theorem c09_f1_reachable : ∃ s, Reach lts (init true) s ∧ Stuck s 1 [] := by
-  have hrun : ∃ s, run lts (init true) f1Schedule = some s ∧ s.blocking = true ∧ s.run = .stopping [1]
+theorem c09_f1_reachable : ∃ s, Reach lts (init [0, 1]) s ∧ Stuck s 1 [] := by
+  have hrun : ∃ s, run lts (init [0, 1]) f1Schedule = some s ∧ s.blockers.contains 1 = true ∧ s.run = .stopping [1]
       ∧ s.mu = some .run ∧ s.rl = .configSet ∧ neverLaunched s 1 = true := by
     refine ⟨_, rfl, ?_⟩
     decide
   obtain ⟨s, hs, h1, h2, h3, h4, h5⟩ := hrun
-  exact ⟨s, reach_of_run hs, ⟨h1, h2, h3, h4, h5⟩⟩
+  exact ⟨s, reach_of_run hs, ⟨h1, h2, by simp, h3, h4, h5⟩⟩
 
 /-- with children whose `Stop()` never waits (`blocking = false`) the same schedule runs to the end: `Run()` returns
 (with an error: `Transition(Stopped)` is refused in state Reloading), the reload returns, and the child the overtaken
 reload booted afterwards is born with a context that is done -/
-example : ∃ s, run lts (init false)
+example : ∃ s, run lts (init [])
       (f1Schedule ++ [.childStopRet 1, .runStopEnd, .runFinish, .rlBoot, .rlFinish]) = some s
-    ∧ s.run = .returned (.failed 0) ∧ s.rl = .idle ∧ s.reloads = 1 ∧ s.gens.all (Gen.done s) = true := by
+    ∧ s.run = .returned .other ∧ s.rl = .idle ∧ s.reloads = 1 ∧ s.gens.all (Gen.done s) = true := by
   refine ⟨_, rfl, ?_⟩
   decide
 
